@@ -39,6 +39,7 @@ type Spec struct {
 	Params     bool     // C06: parameter changes
 	LateExec   bool     // an observed bridge-call result stays parked; executing it is a separate, later step
 	Prefill    int      // pool transfers created by the set-up (a pool larger than one batch can hold)
+	Lookalike  bool     // the oracles report a new bridge token whose symbol differs from the native coin's only in letter case
 	SendCallTo bool     // inbound bridge calls whose memo is the send-call-to flag (tokens go to the sender's address)
 	Focus      string   // "batches": narrowed alphabet (one sender, two fee shapes, owner cancel, plain batch requests) for deeper batch life-cycle histories
 
@@ -52,7 +53,7 @@ type Spec struct {
 }
 
 func (s *Spec) Name() string {
-	return fmt.Sprintf("bridge/%s/%s/%s/calls=%v/in=%v/evm=%v/ext=%v/max=%d/focus=%s/prefill=%d/late=%v", s.Prop, strings.Join(s.Chains, "+"), strings.Join(s.Tokens, "+"), s.Calls, s.Inbound, s.EVM, s.ExtSim, s.MaxSend, s.Focus, s.Prefill, s.LateExec) + fmt.Sprintf("/sendcallto=%v", s.SendCallTo)
+	return fmt.Sprintf("bridge/%s/%s/%s/calls=%v/in=%v/evm=%v/ext=%v/max=%d/focus=%s/prefill=%d/late=%v", s.Prop, strings.Join(s.Chains, "+"), strings.Join(s.Tokens, "+"), s.Calls, s.Inbound, s.EVM, s.ExtSim, s.MaxSend, s.Focus, s.Prefill, s.LateExec) + fmt.Sprintf("/sendcallto=%v/lookalike=%v", s.SendCallTo, s.Lookalike)
 }
 
 // ---------------------------------------------------------------- model
@@ -314,6 +315,40 @@ func (s *Spec) Ops(st *explore.State) []explore.Op {
 							c.Violate("deposit-credits-receiver", s.sig("deposit-execution-failed"), fmt.Sprintf("deposit of 2 %s through %s could not be executed", t, ch))
 						}
 					}
+				}})
+			}
+		}
+	}
+	if s.Lookalike {
+		for _, sym := range []string{"fx", "Fx"} {
+			sym := sym
+			contract := scen.ExtAddr(ch0, "lookalike-"+sym)
+			if _, known := scen.Keeper(s.w, ch0).GetBridgeDenomByContract(st.Ctx, contract); !known {
+				// a token of another project whose symbol happens to read like the native coin's (18 decimals): whatever
+				// becomes of it, the native coin's books on this chain are not its business
+				ops = append(ops, explore.Op{Name: fmt.Sprintf("RegisterLookalike(%s,%s)", ch0, sym), Run: func(c *explore.State) {
+					cm := c.Model.(*Model)
+					cm.Nonce[ch0]++
+					vr := scen.Vote(s.w, c.Ctx, ch0, s.os[ch0][0], scen.BridgeTokenClaim(ch0, cm.Nonce[ch0], cm.ExtH[ch0], contract, "Lookalike", sym, 18, ""))
+					if !vr.OK() {
+						cm.Nonce[ch0]--
+					}
+					res(c, vr.OK())
+				}})
+			} else {
+				ops = append(ops, explore.Op{Name: fmt.Sprintf("DepositLookalike(%s,%s,u2,2)", ch0, sym), Run: func(c *explore.State) {
+					cm := c.Model.(*Model)
+					cm.Nonce[ch0]++
+					n := cm.Nonce[ch0]
+					vr := scen.Vote(s.w, c.Ctx, ch0, s.os[ch0][0], scen.SendToFxClaim(ch0, n, cm.ExtH[ch0], contract, 2, scen.ExtAddr(ch0, "depositor"), s.w.A("u2").Acc(), "", ""))
+					if !vr.OK() {
+						cm.Nonce[ch0]--
+						res(c, false)
+						return
+					}
+					er := s.w.CallABI(c.Ctx, s.w.A("rel"), cctypes.GetAddress(), cctypes.GetABI(), nil, 800000, "executeClaim", ch0, new(big.Int).SetUint64(n))
+					res(c, er.Success())
+					// the ledger is not told anything: every tracked holding (the native coin above all) must stay as it is
 				}})
 			}
 		}
